@@ -252,7 +252,9 @@ func (ns *NameStrategy) Name(t *types.Type) string {
 	case types.Array:
 		name = ns.Join(ns.Prefix, []string{
 			"Array",
-			ns.removePrefixAndSuffix(fmt.Sprintf("%d", t.Len)),
+			// The length is not a name made by this strategy: it carries
+			// no prefix or suffix to remove.
+			fmt.Sprintf("%d", t.Len),
 			ns.removePrefixAndSuffix(ns.Name(t.Elem)),
 		}, ns.Suffix)
 	case types.Pointer:
